@@ -16,6 +16,8 @@ func init() {
 		Mirror(c, "R-MIRROR", ordPkgs, typeclassBinMethods, false, nil, 40)
 		Rel(c, "R-REL", []*packages.Package{c.Pkg("ord")}, func(p *packages.Package, fd *ast.FuncDecl, fn *types.Func) bool { return true }, nil, 200)
 		Sorter(c, "R-SORTER", libPkgs(c))
+		Sign(c, "R-SIGN", libPkgs(c))
+		NoSwap(c, "R-NOSWAP", []*packages.Package{c.Pkg("ord")})
 	})
 }
 
